@@ -99,6 +99,38 @@ func calendarLaws() []L {
 				return "hour-minute-second-of-time-differ"
 			}, "TIME_TO_SEC("+lit+")", "HOUR("+lit+")", "MINUTE("+lit+")", "SECOND("+lit+")")
 		}},
+		{Name: "datetime-precision", Weight: 2, Gen: func(rnd *rand.Rand) *Inst {
+			// CAST(text AS DATETIME(p)) keeps the value rounded to p fractional digits (MySQL rounds, half up)
+			t, tc := genDT(rnd, true)
+			p := rnd.Intn(7)
+			unit := int64(1)
+			for i := p; i < 6; i++ {
+				unit *= 10
+			}
+			us := micros(t)
+			r := (us + unit/2) / unit * unit
+			if unit == 1 {
+				r = us
+			}
+			base := time.Date(1, 1, 1, 0, 0, 0, 0, time.UTC).Unix()
+			want := time.Unix(base+r/1_000_000, (r%1_000_000)*1000).UTC()
+			if !inRange(want) {
+				return nil
+			}
+			cls := "exact"
+			if r > us {
+				cls = "rounds-up"
+			} else if r < us {
+				cls = "rounds-down"
+			}
+			typ := fmt.Sprintf("DATETIME(%d)", p)
+			return g5lib.NewInst(fmt.Sprintf("p=%d/%s/%s", p, cls, tc), []any{dtText(t), p}, func(v []V) string {
+				if !sameTime(v[0], want) {
+					return "cast-to-datetime-p-is-not-the-value-rounded-to-p-digits"
+				}
+				return ""
+			}, "CAST('"+dtText(t)+"' AS "+typ+")")
+		}},
 		{Name: "time-to-sec-datetime", Gen: func(rnd *rand.Rand) *Inst {
 			t, tc := genDT(rnd, false)
 			return g5lib.NewInst(tc, dtText(t), g5lib.WantInt(int64(t.Hour()*3600+t.Minute()*60+t.Second()), "differs-from-seconds-of-day"), "TIME_TO_SEC("+lit6(t)+")")
